@@ -210,13 +210,15 @@ pub fn run(ctx: &Ctx) -> Report {
     }
   } else {
     // a fixed corpus first: spellings the generators below do not produce, with the value the URL host rules give them
+    // (percent escapes, IDNA mappings and full-width digits are left unpinned: the statement does not spell them out;
+    // whatever they are taken for must still survive every representation)
     let long_label = "a".repeat(64);
     let corpus: Vec<(String, Kind)> = vec![
-      ("ex%61mple.com:6881".into(), Kind::Valid(Some("example.com:6881".into()))),
-      ("%31.2.3.4:80".into(), Kind::Valid(Some("1.2.3.4:80".into()))),
-      ("b\u{fc}cher.example:6881".into(), Kind::Valid(Some("xn--bcher-kva.example:6881".into()))),
-      ("EXAMPLE\u{3002}com:1".into(), Kind::Valid(Some("example.com:1".into()))),
-      ("\u{ff11}.\u{ff12}.\u{ff13}.\u{ff14}:80".into(), Kind::Valid(Some("1.2.3.4:80".into()))),
+      ("ex%61mple.com:6881".into(), Kind::Unpinned),
+      ("%31.2.3.4:80".into(), Kind::Unpinned),
+      ("b\u{fc}cher.example:6881".into(), Kind::Unpinned),
+      ("EXAMPLE\u{3002}com:1".into(), Kind::Unpinned),
+      ("\u{ff11}.\u{ff12}.\u{ff13}.\u{ff14}:80".into(), Kind::Unpinned),
       ("router.example.com.:6881".into(), Kind::Valid(Some("router.example.com.:6881".into()))),
       (format!("{long_label}.example:6881"), Kind::Valid(Some(format!("{long_label}.example:6881")))),
       ("example.com:000080".into(), Kind::Valid(Some("example.com:80".into()))),
